@@ -598,8 +598,7 @@ func factsAtBlock(b *ssa.BasicBlock) []Fact {
 			if iff, ok := d.Instrs[len(d.Instrs)-1].(*ssa.If); ok && d.Succs[0] != d.Succs[1] {
 				// which successor leads (exclusively) to cur?
 				for k, s := range d.Succs {
-					other := d.Succs[1-k]
-					if (s == cur || s.Dominates(cur)) && len(s.Preds) == 1 && !(other == cur || other.Dominates(cur)) {
+					if (s == cur || s.Dominates(cur)) && len(s.Preds) == 1 {
 						out = append(out, expandFact(Fact{iff.Cond, k == 0}, 0)...)
 					}
 				}
@@ -783,4 +782,58 @@ func arrayLiteral(a *ssa.Alloc) []ssa.Value {
 		out[i] = v
 	}
 	return out
+}
+
+
+// returnsOf lists the (de-spilled) result tuples of fn's normal returns. go/ssa spills results into locals when the
+// function has defers: `*t0 = v; rundefers; t = *t0; return t` — the stored value is recovered. The synthetic
+// recover block is skipped.
+func returnsOf(fn *ssa.Function) []*retInfo {
+	var out []*retInfo
+	for _, b := range fn.Blocks {
+		if b == fn.Recover || len(b.Instrs) == 0 {
+			continue
+		}
+		ret, ok := b.Instrs[len(b.Instrs)-1].(*ssa.Return)
+		if !ok {
+			continue
+		}
+		ri := &retInfo{Ret: ret, Block: b}
+		for _, r := range ret.Results {
+			ri.Results = append(ri.Results, unspill(r, b))
+		}
+		out = append(out, ri)
+	}
+	return out
+}
+
+type retInfo struct {
+	Ret     *ssa.Return
+	Block   *ssa.BasicBlock
+	Results []ssa.Value
+}
+
+func unspill(r ssa.Value, b *ssa.BasicBlock) ssa.Value {
+	u, ok := r.(*ssa.UnOp)
+	if !ok || u.Op != token.MUL || u.Block() != b {
+		return r
+	}
+	a, ok := u.X.(*ssa.Alloc)
+	if !ok {
+		return r
+	}
+	// last store to a in block b before u; else unique store in dominating blocks
+	var last ssa.Value
+	for _, in := range b.Instrs {
+		if in == ssa.Instruction(u) {
+			break
+		}
+		if st, ok := in.(*ssa.Store); ok && st.Addr == ssa.Value(a) {
+			last = st.Val
+		}
+	}
+	if last != nil {
+		return last
+	}
+	return r
 }
